@@ -37,11 +37,34 @@ def const_values():
         ("nan_shared", lambda: _NAN), ("nan_fresh", lambda: float("nan")), ("finf", lambda: math.inf), ("s_posinf", lambda: "posinf"), ("s_inf", lambda: "inf"),
         ("s_largest", lambda: "largest"), ("np32_0", lambda: np.float32(0)), ("np32_neg0", lambda: np.float32(-0.0)), ("np32_1", lambda: np.float32(1)),
         ("np64_1", lambda: np.float64(1)), ("c0", lambda: 0j), ("cneg0", lambda: complex(-0.0, 0.0)), ("f2", lambda: 2.0), ("fm2", lambda: -2.0),
+        # neighbouring values of every NumPy scalar type (a key that converts or rounds the value collides them)
+        ("np64_1eps", lambda: np.float64(1) + np.finfo(np.float64).eps), ("np32_1eps", lambda: np.float32(1) + np.finfo(np.float32).eps),
+        ("ld_1", lambda: np.longdouble(1)), ("ld_1eps", lambda: np.longdouble(1) + np.finfo(np.longdouble).eps),
+        ("cld_1", lambda: np.clongdouble(1 + 2j)), ("cld_1eps", lambda: np.clongdouble(1 + 2j) + np.finfo(np.longdouble).eps),
+        ("c64_1", lambda: np.complex64(1 + 2j)), ("c128_1", lambda: np.complex128(1 + 2j)),
+        ("i64_1", lambda: np.int64(1)), ("i32_1", lambda: np.int32(1)), ("big", lambda: 2 ** 53), ("big1", lambda: 2 ** 53 + 1),
     ]
 
 
 CONSTS = dict(const_values())
 STR_NORMAL = {"+inf": "posinf", "inf": "posinf", "pinf": "posinf", "-inf": "neginf", "ninf": "neginf"}
+
+
+def _bits(a):
+    """hex of the value bits; x87 extended values carry 6 uninitialised padding bytes that are not part of the value."""
+    b = a.tobytes()
+    if a.dtype == np.longdouble and len(b) == 16 and np.finfo(np.longdouble).nmant == 63:
+        b = b[:10]
+    return b.hex()
+
+
+def _zero_bits(bits):
+    """True if the (possibly nested) hex encodes +-0 in every component."""
+    if isinstance(bits, tuple):
+        return all(_zero_bits(x) for x in bits)
+    if not isinstance(bits, str) or not bits or any(c not in "0123456789abcdef" for c in bits):
+        return False
+    return bits.replace("0", "") in ("", "8")
 
 
 def value_term(v):
@@ -56,8 +79,10 @@ def value_term(v):
         a = np.asarray(v)
         if np.isnan(a):
             return (type(v).__name__, "nan")
-        return (type(v).__name__, a.tobytes().hex())
-    if isinstance(v, (complex, np.complexfloating)):
+        return (type(v).__name__, _bits(a))
+    if isinstance(v, np.complexfloating):
+        return (type(v).__name__, (_bits(np.asarray(v.real)), _bits(np.asarray(v.imag))))
+    if isinstance(v, complex):
         return (type(v).__name__, (value_term(float(v.real))[1], value_term(float(v.imag))[1]))
     raise TypeError(type(v))
 
@@ -144,7 +169,7 @@ def check_state(fa, part, hist):
             cls = "other"
             if a[0] == "const" and b[0] == "const":
                 if a[1] == b[1] and a[3:] == b[3:]:
-                    cls = "constants-differing-only-in-sign-of-zero" if ("00" in str(a[2]) or "80" in str(a[2])) else "constants-same-type-different-bits"
+                    cls = "constants-differing-only-in-sign-of-zero" if (_zero_bits(a[2]) and _zero_bits(b[2])) else "constants-same-type-different-bits"
                 else:
                     cls = "constants-of-different-type-or-like"
             else:
